@@ -719,9 +719,25 @@ func (em *emitter) emitImport(node *ast.Import, isTemplate bool) []*runtime.Func
 		targetPkg = em.pkg
 	}
 
+	// With "import 'path' for A, B", only the listed names are imported.
+	imported := func(name string) bool {
+		if node.For == nil {
+			return true
+		}
+		for _, ident := range node.For {
+			if ident.Name == name {
+				return true
+			}
+		}
+		return false
+	}
+
 	if !blankImport {
 		// Make available the imported functions.
 		for name, fn := range funcs {
+			if !imported(name) {
+				continue
+			}
 			if importName != "" {
 				name = importName + "." + name
 			}
@@ -730,6 +746,9 @@ func (em *emitter) emitImport(node *ast.Import, isTemplate bool) []*runtime.Func
 
 		// Add the imported variables.
 		for name, v := range vars {
+			if !imported(name) {
+				continue
+			}
 			if importName != "" {
 				name = importName + "." + name
 			}
